@@ -202,3 +202,94 @@ Definition new_die_polls_of (count faces : N) : N :=
 Definition date_days_polls_of (n : N) : N := n.
 Definition date_months_polls_of (n : N) : N := n / 12 + n mod 12.
 Definition lshift_n_insert_polls_of (n : N) : N := lshift_inserts n.
+
+(* ------------------------------------------------------------------ *)
+(* level-1 poll counts: the BigUint operations on raw operands (a flag for
+   Small and the little-endian limbs exactly as stored, leading zero limbs
+   allowed), as the hook biguint_polls runs them *)
+
+Definition limbs_zero (l : list N) : bool := forallb (N.eqb 0) l.
+Fixpoint limbs_val (l : list N) : N :=
+  match l with [] => 0 | d :: r => d + two64 * limbs_val r end.
+Definition nlen (l : list N) : N := N.of_nat (length l).
+
+(* BigUint::mul: Small * Small that fits does not poll; otherwise
+   mul_internal polls once per limb of the right operand unless a factor is 0 *)
+Definition l1_mul_polls (sa : bool) (a : list N) (sb : bool) (b : list N) : N :=
+  if sa && sb && (hd 0 a * hd 0 b <? two64) then 0
+  else if limbs_zero a || limbs_zero b then 0
+  else nlen b.
+
+(* lshift by one bit: a Large value first grows by a limb if its top bit is
+   set, then polls once per limb; a Small value does not poll *)
+Definition l1_lshift_polls (sa : bool) (a : list N) : N :=
+  if sa then 0 else nlen a + (if N.testbit (last a 0) 63 then 1 else 0).
+
+(* rshift_n(1): nothing for zero or Small, else a poll per limb *)
+Definition l1_rshift_polls (sa : bool) (a : list N) : N :=
+  if sa || limbs_zero a then 0 else nlen a.
+
+(* divmod, the cases whose poll count does not depend on the representation
+   of the running remainder: the early exits, division by 2 (one rshift), and
+   binary long division by a Small divisor below 2^62 (the remainder stays
+   Small, so only the outer loop polls: once per limb of the dividend) *)
+Definition l1_divmod_polls (sa : bool) (a : list N) (sb : bool) (b : list N) : option N :=
+  let va := limbs_val a in
+  let vb := limbs_val b in
+  if sa && sb then Some 0
+  else if vb =? 0 then None
+  else if (vb =? 1) || (va =? 0) || (va <? vb) || (va =? vb) then Some 0
+  else if vb =? 2 then Some (l1_rshift_polls sa a)
+  else if sb && (vb <? 4611686018427387904) then Some (nlen a)
+  else None.
+
+(* ------------------------------------------------------------------ *)
+(* BigRat digit expansion (bigrat.rs format_trailing_digits): next_digit
+   polls first, then multiplies the remainder by the base, divides by the
+   denominator (ld limbs), multiplies back and subtracts.  format_nonrecurring
+   calls it once per digit printed; Brent's cycle detection (recurring
+   expansions, "to float") calls it about three times per digit of pre-period
+   and period, comparing remainders in between.  The number of digit steps is
+   unbounded in the size of the input (the period of 1/d is up to d - 1), the
+   work between two polls is not. *)
+
+Definition digit_step (ld : N) : trace :=
+  Poll :: Work (ld + 1) :: mul_trace ld 1 ++ divmod_trace (ld + 1) ld ++ mul_trace 1 ld ++ [Work (ld + 1)].
+
+(* format_nonrecurring: n digits *)
+Definition digits_trace (ld : N) (n : nat) : trace := repeat_trace n (digit_step ld ++ [Work 2]).
+
+(* brents_algorithm: n1 steps of the search phase (each after a comparison of
+   two remainders), lam steps collecting the period, mu double steps *)
+Definition brent_trace (ld : N) (n1 lam mu : nat) : trace :=
+  repeat_trace n1 (Work ld :: digit_step ld)
+  ++ repeat_trace lam (digit_step ld ++ [Work 1])
+  ++ repeat_trace mu (Work ld :: digit_step ld ++ digit_step ld ++ [Work 1]).
+
+Definition digit_gap_bound (ld : N) : N := 64 * (2 * ld + 4) + 3 * ld + 8.
+
+(* minimal polls: one per digit step *)
+Definition digits_polls_of (n : N) : N := n.
+
+(* pre-period and period of 1/d in base 10 (d > 1): strip the factors 2 and
+   5, then the multiplicative order of 10 *)
+Fixpoint strip (fuel : nat) (p d : N) : N * N :=
+  match fuel with
+  | O => (d, 0)
+  | S f => if (d mod p =? 0) && (1 <? d) then let '(d', k) := strip f p (d / p) in (d', k + 1) else (d, 0)
+  end.
+Fixpoint order10 (fuel : nat) (d r k : N) : N :=
+  match fuel with
+  | O => k
+  | S f => if r =? 1 then k else order10 f d (10 * r mod d) (k + 1)
+  end.
+Definition preperiod_period (d : N) : N * N :=
+  let '(d2, k2) := strip (N.to_nat (N.size d)) 2 d in
+  let '(d5, k5) := strip (N.to_nat (N.size d)) 5 d2 in
+  (N.max k2 k5, if d5 <=? 1 then 0 else order10 (N.to_nat d5) d5 (10 mod d5) 1).
+
+(* Brent on 1/d: at least lam steps in the search phase, lam to collect the
+   period, two per pre-period digit *)
+Definition recurring_polls_of (d : N) : N :=
+  let '(mu, lam) := preperiod_period d in 2 * lam + 2 * mu.
+
